@@ -2,7 +2,7 @@
     model by the end-of-input sweep over every state and by runs ending in end(), harness/props/c17.py). *)
 From Coq Require Import NArith Arith List Bool.
 Import ListNotations.
-From NV Require Import Machine.Dfa Machine.Sem Machine.Eof Machine.Chunk.
+From NV Require Import Machine.Dfa Machine.Sem Machine.Eof Machine.Chunk Machine.Bisim Machine.BBisim Machine.Drive Regex.Re Ref.Lang Ref.RefSem Ref.Sim Ref.RefCert Ref.CallLevel.
 
 (** `end` patterns never match a data byte: what a byte selects does not depend on End marks at all *)
 Theorem c17_end_never_matches_data : forall b ts s, (s < 256)%N ->
@@ -28,3 +28,29 @@ Theorem c17_end_after_fail : forall D exec evalt d q x, is_fail_state d q ->
   end_call D exec evalt d q x = Some {| f_res := RFail; f_q := q; f_x := x; f_consumed := 0; f_evs := [] |}.
 Proof. exact fail_absorbing_end. Qed.
 Print Assumptions c17_end_after_fail.
+
+(** end() never consumes and never moves the cursor: every outcome of a step on the end-of-input symbol is a return
+    with the cursor where it was *)
+Theorem c17_end_consumes_nothing : forall d fuel q, tree_all leaf_end_ok (nf d fuel q sym_end) = true.
+Proof. exact nf_end. Qed.
+Print Assumptions c17_end_consumes_nothing.
+
+(** feeding the whole input (re-invoking after yields) and then calling end() is the symbol-by-symbol run on the input
+    followed by the end-of-input symbol - the run the certificates of C01 / C16 are about.  (Actions that run inside end()
+    see 255 as the last byte, which is what the hypotheses on the data semantics say.) *)
+Theorem c17_feed_then_end_is_the_run_with_end : forall D exec evalt d, dfa_wf d = true ->
+  (forall p x, exec p sym_end x = exec p 255%N x) -> (forall t x, evalt t sym_end x = evalt t 255%N x) ->
+  forall f bs q x tr K, f <= K -> drive_end D exec evalt d K f bs q x = Some tr ->
+  run D exec evalt (step_tree d) K (bs ++ [sym_end]) q x = Some tr.
+Proof. exact drive_end_run. Qed.
+Print Assumptions c17_feed_then_end_is_the_run_with_end.
+
+(** hence, for a program whose machine carries the certificate of C01, what a caller observes who feeds its input and
+    calls end() is a trace the procedural reading allows for that input followed by the end of input *)
+Theorem c17_caller_with_end_observes_a_reading : forall syms p d, sim_cert syms p d = true -> dfa_wf d = true ->
+  forall D exec evalt, (forall p x, exec p sym_end x = exec p 255%N x) -> (forall t x, evalt t sym_end x = evalt t 255%N x) ->
+  forall K fuel input, fuel <= K -> (forall s, In s input -> In s syms) -> In sym_end syms -> forall x tr,
+  cdrive_end D exec evalt d K fuel input x = Some tr ->
+  reading D exec evalt (ref_spec (ref_table syms p)) (to_stree (ref_table syms p) (start_tree p)) (input ++ [sym_end]) x tr.
+Proof. exact caller_with_end_sees_a_reading. Qed.
+Print Assumptions c17_caller_with_end_observes_a_reading.
